@@ -97,7 +97,14 @@ func (g *WG) add(from, to *GNode, kind int) int {
 var opLabel = map[Kind]string{Union: "union", Inter: "intersection", Diff: "exclusion"}
 
 // BuildWG builds the reference graph of a model.
-func BuildWG(m *Model) *WG {
+func BuildWG(m *Model) *WG { return buildWG(m, false) }
+
+// BuildLenient builds the reference graph as the plain (unweighted) graph is
+// specified: a tuple-to-userset whose tupleset is undefined or unrestricted
+// contributes no edge, and a parent type lacking the relation is skipped.
+func BuildLenient(m *Model) *WG { return buildWG(m, true) }
+
+func buildWG(m *Model, lenient bool) *WG {
 	g := &WG{Nodes: map[string]*GNode{}}
 	types := append([]TypeDef{}, m.Types...)
 	sort.SliceStable(types, func(i, j int) bool { return types[i].Name < types[j].Name })
@@ -154,16 +161,25 @@ func BuildWG(m *Model) *WG {
 				case TTU:
 					ts, ok := relByName[rw.Tupleset]
 					if !ok {
+						if lenient {
+							return nil
+						}
 						g.Invalid = "tupleset relation " + rw.Tupleset + " is not defined"
 						return nil
 					}
 					if len(ts.Restr) == 0 {
+						if lenient {
+							return nil
+						}
 						g.Invalid = "tupleset relation " + rw.Tupleset + " has no type restrictions"
 						return nil
 					}
 					var idx []int
 					for _, x := range ts.Restr {
 						if !hasRel(x.Type, rw.Rel) {
+							if lenient {
+								continue
+							}
 							g.Invalid = "parent type " + x.Type + " lacks relation " + rw.Rel
 							return nil
 						}
